@@ -85,7 +85,11 @@ func genC18(seed uint64, tier string) *plan.Plan {
 			}
 		}
 		op := plan.Op{K: "session", A: kind, B: proto, C: cert, D: d, N: []int64{sn, cli, int64(r.IntN(2)), int64(1 + r.IntN(3)), host}}
-		if !reuse && r.IntN(12) == 0 {
+		if !reuse && pl.Cfg["v6"] == 0 && r.IntN(12) == 0 {
+			// a collector that is configured by host name, ServerName unset
+			op.A, op.B = 6, 0
+			op.N[4] = 0
+		} else if !reuse && r.IntN(12) == 0 {
 			// a collector whose client-CA setting holds no usable certificate, started more than once
 			op.A, op.B = 5, 0
 			op.N[4] = 0
@@ -254,6 +258,26 @@ func runC18(pl *plan.Plan, out *plan.Outcome) {
 				c18PlaintextSender(env, where, addr, proto, z, uint32(900+si))
 			case 3:
 				c18PlaintextListener(env, where, addr, proto, ein)
+			case 6:
+				// The collector is configured by host name and no ServerName is given: the expected
+				// name is that host name, whatever address it resolves to.
+				if v6 {
+					break
+				}
+				named := net.JoinHostPort("localhost", fmt.Sprint(port))
+				listen := net.JoinHostPort("127.0.0.1", fmt.Sprint(port))
+				variant := int(n[3]) % 3
+				srv := []certPair{z.SrvLoopIPOnly, z.SrvLoopNameOnly, z.SrvLoopBoth}[variant]
+				e := c18Expect{mustEstablish: true}
+				if variant == 0 {
+					e = c18Expect{mustRefuse: true, why: "the collector was configured as \"localhost\" and its certificate names only the address 127.0.0.1"}
+				}
+				cfg.ServerName = ""
+				cfg.CertData, cfg.KeyData = nil, nil
+				ein.CollectorAddress = named
+				ein.CollectorProtocol = "tcp"
+				env.Count("c18.collector_configured_by_host_name", 1)
+				c18RealCollector(env, where+fmt.Sprintf(" [collector configured as %s, listening on %s, certificate variant %d]", named, listen, variant), listen, 0, srv, false, z, ein, e, uint32(900+si))
 			case 5:
 				c18UnusableClientCA(env, where, addr, z, ein, uint32(900+si), int(n[3]))
 			case 4:
